@@ -63,5 +63,8 @@ Inductive wstmt :=
 | WMul (x y o : eref)                                  (* self.space.multiply(x, y, out=o) *)
 | WDiv (x y o : eref).                                 (* self.space.divide(x, y, out=o) *)
 
+(* the binary operator overloads of LinearSpaceElement *)
+Inductive opname := OAdd | OIAdd | OSub | OISub | ORSub | OMul | OIMul | OTrueDiv | OITrueDiv | ORTrueDiv.
+
 Inductive regime := Direct | Fallback | Blas.
 Inductive order := OrdC | OrdF.
